@@ -24,3 +24,29 @@ func Closure(next func()) {
 		next()
 	}()
 }
+
+// FG is a plain function whose callee is an instantiated generic function of
+// the same package (adjacent frames of one package, the inner one generic).
+//
+//go:noinline
+func FG(next func()) { G(1.5, next) }
+
+// GF is a generic function whose callee is a plain function of the same package.
+//
+//go:noinline
+func GF[X any](x X, next func()) { F(next) }
+
+// Box is a generic type; its method's callee and caller (FBox) are plain
+// functions of the same package.
+type Box[X any] struct{ V X }
+
+//go:noinline
+func (b *Box[X]) M(next func()) { F(next) }
+
+//go:noinline
+func FBox(next func()) { (&Box[string]{}).M(next) }
+
+// GG is a generic function calling another instantiated generic function.
+//
+//go:noinline
+func GG[X any](x X, next func()) { GF([]X{x}, next) }
